@@ -601,7 +601,9 @@ class TrenchColumn:
             print('No trench found intersecting waveguides with trench area.\n')
             return None
 
-        for block in listcast(sorted(trench_blocks.geoms, key=Trench)):
+        # a single surviving block is a Polygon, several are a MultiPolygon
+        blocks = getattr(trench_blocks, 'geoms', [trench_blocks])
+        for block in listcast(sorted(blocks, key=Trench)):
             # buffer to round corners
             block = block.buffer(self.round_corner, resolution=256, cap_style=1)
             # simplify the shape to avoid path too much dense of points
